@@ -173,21 +173,83 @@ Record amachine := {
   a_bnd : ASt -> ASt * zr;          (* bounds() *)
   a_tig : ASt -> ASt * bool;        (* tighten_bounds() *)
   a_cmp : ASt -> ASt * bool;        (* is_complete() *)
+  a_eds : ASt -> ASt;               (* list(edits()) (the listing itself is read off the state) *)
   a_err : ASt -> bool;              (* an internal error has been raised *)
   a_mu : ASt -> nat                 (* a bound on the number of tighten_bounds() calls that can still return True *)
 }.
 
-(* The contract C05 needs of a sub-edit with final value v: there is an invariant containing the state, closed under
-   the three operations in ANY order, on which no operation raises, the measure never grows and strictly shrinks on a
-   tighten_bounds() that returns True, a single-valued bounds() is the final value, and after a tighten_bounds() that
-   returned False bounds() is (v, v) and leaves the state unchanged. *)
+Section Generic.
+  Variable M : amachine.
+
+  (* Edit.has_non_zero_cost (tree.py:100-108): while not bounds().definitive() and bounds().lower_bound <= 0 and
+     tighten_bounds(): pass; return bounds().lower_bound > 0 *)
+  Fixpoint g_hnz (fuel : nat) (s : ASt M) : ASt M * bool :=
+    let p1 := a_bnd M s in
+    let p2 := a_bnd M (fst p1) in
+    if fst (snd p1) =? snd (snd p1) then (fst p2, 0 <? fst (snd p2))
+    else
+      let s2 := fst p2 in
+      if fst (snd p2) <=? 0 then
+        match fuel with
+        | O => (s2, false)
+        | S f => let t := a_tig M s2 in
+                 if snd t then g_hnz f (fst t)
+                 else let p3 := a_bnd M (fst t) in (fst p3, 0 <? fst (snd p3))
+        end
+      else let p3 := a_bnd M s2 in (fst p3, 0 <? fst (snd p3)).
+
+  (* the state after one public call on the object *)
+  Definition g_step (s : ASt M) (o : bop) : ASt M :=
+    match o with
+    | OBounds => fst (a_bnd M s)
+    | OTighten => fst (a_tig M s)
+    | OIsComplete => fst (a_cmp M s)
+    | OValid => s
+    | OEdits => a_eds M s
+    | OHasNonZero => fst (g_hnz (S (a_mu M s)) s)
+    end.
+
+  Definition g_run (h : list bop) (s : ASt M) : ASt M := fold_left g_step h s.
+
+  (* while edit.valid and not edit.is_complete() and edit.tighten_bounds(): pass *)
+  Fixpoint g_idiom (fuel : nat) (s : ASt M) : ASt M :=
+    let p := a_cmp M s in
+    if snd p then fst p else
+    match fuel with
+    | O => fst p
+    | S f => let t := a_tig M (fst p) in if snd t then g_idiom f (fst t) else fst t
+    end.
+
+  (* while not e.bounds().definitive() and e.tighten_bounds(): pass *)
+  Fixpoint g_tighten_def (fuel : nat) (s : ASt M) : ASt M :=
+    let p := a_bnd M s in
+    if fst (snd p) =? snd (snd p) then fst p else
+    match fuel with
+    | O => fst p
+    | S f => let t := a_tig M (fst p) in if snd t then g_tighten_def f (fst t) else fst t
+    end.
+
+  (* completion by the library's idiom, then the own cost as the serialiser reads it *)
+  Definition g_final_cost (s : ASt M) : option Z :=
+    let s0 := g_idiom (S (a_mu M s)) s in
+    let s1 := g_tighten_def (S (a_mu M s0)) s0 in
+    let p := a_bnd M s1 in
+    if a_err M (fst p) then None else if fst (snd p) =? snd (snd p) then Some (fst (snd p)) else None.
+End Generic.
+
+(* The contract C05 needs of an edit with final value v: there is an invariant containing the state, closed under
+   the operations in ANY order, on which no operation raises, the measure never grows and strictly shrinks on a
+   tighten_bounds() that returns True, bounds() contains the final value and is idempotent, and tighten_bounds()
+   returns False only where bounds() already was (v, v), after which bounds() is (v, v) and leaves the state unchanged. *)
 Definition astep_ok (M : amachine) (Inv : ASt M -> Prop) (v : Z) (t : ASt M) : Prop :=
   a_err M t = false /\
   (let t' := fst (a_bnd M t) in let r := snd (a_bnd M t) in
-   Inv t' /\ (a_mu M t' <= a_mu M t)%nat /\ (fst r = snd r -> r = (v, v)) /\ a_bnd M t' = (t', r)) /\
+   Inv t' /\ (a_mu M t' <= a_mu M t)%nat /\ fst r <= v <= snd r /\ a_bnd M t' = (t', r)) /\
   (let t' := fst (a_tig M t) in let b := snd (a_tig M t) in
-   Inv t' /\ (b = true -> (a_mu M t' < a_mu M t)%nat) /\ (b = false -> (a_mu M t' <= a_mu M t)%nat /\ a_bnd M t' = (t', (v, v)))) /\
-  (let t' := fst (a_cmp M t) in Inv t' /\ (a_mu M t' <= a_mu M t)%nat).
+   Inv t' /\ (b = true -> (a_mu M t' < a_mu M t)%nat) /\
+   (b = false -> (a_mu M t' <= a_mu M t)%nat /\ a_bnd M t' = (t', (v, v)) /\ snd (a_bnd M t) = (v, v))) /\
+  (let t' := fst (a_cmp M t) in Inv t' /\ (a_mu M t' <= a_mu M t)%nat) /\
+  (let t' := a_eds M t in Inv t' /\ (a_mu M t' <= a_mu M t)%nat).
 
 Definition AContract (M : amachine) (s : ASt M) (v : Z) : Prop :=
   exists Inv : ASt M -> Prop, Inv s /\ forall t, Inv t -> astep_ok M Inv v t.
